@@ -87,6 +87,20 @@ def gen_cases(tier, seed):
         content = gen.from_alphabet(rng, rng.randint(20, 120), alphabet)
         cases.append({'fn': 'make_sequence', 'content': content, 'kw': {'symbol_count': rng.randint(2, 5), 'encoding': enc},
                       'tag': 'single-byte-encoding', 'sel': 'symbol_count'})
+    # always: version and symbol count both given, lengths around what k symbols of that version hold (the version is
+    # re-fitted to the longest chunk then: every symbol holds its chunk)
+    for v in (1, 2, 3):
+        for lv in ('L', 'M', 'H'):
+            for mode in ('byte', 'numeric', 'alphanumeric'):
+                per = gen.max_chars(v, lv, mode)
+                for k in (2, 3, 5):
+                    for frac in (0.8, 0.9, 0.95, 1.0, 1.05):
+                        n_ = max(k, int(per * k * frac))
+                        content = gen.content_for_bits(mode, n_)
+                        if mode == 'byte' and (n_ + k) % 2:
+                            content = content.encode('ascii')
+                        cases.append({'fn': 'make_sequence', 'content': content, 'kw': {'version': v, 'symbol_count': k, 'error': lv},
+                                      'tag': 'both-sweep', 'sel': 'both'})
     # always (no sampling): a sequence of one - short content that would fit a Micro QR symbol, with and without level
     for content in ('1', '12345', 'AB', 'HELLO WORLD', 'ab', 'abcdefghijklmno', '点', '点茗', b'\x01\x02', 7, "':"):
         for kw in ({'symbol_count': 1}, {'symbol_count': 1, 'error': 'L'}, {'symbol_count': 1, 'error': 'Q'},
